@@ -57,7 +57,9 @@ PROPS = {
                    "against fastrace built WITHOUT the enable feature (no reporter call, no thread, no context, no closure invoked)",
                    extra=[S.verdict_stream_for("disabled", "disabled", "run", 60, 2000, flags="", shards=4, binary="vdisabled")]),
     "C17": sysprop(["C17"], ["mixed", "collect", "local", "default"], 250, 4000, GEN_RULE + "; the collect profile favours local collectors, "
-                   "collection with open local spans, pushing one set under several parents and to_span_records"),
+                   "collection with open local spans, pushing one set under several parents and to_span_records; plus local spans and a "
+                   "collected set that last more than a second (durations against the wall-clock bracket, pushed copy and to_span_records)",
+                   extra=[S.verdict_stream_for("longspan", "core", "longspan", 1, 6, shards=4)]),
     "C15": {"coq": ["C15"], "streams": [S.twins_stream, S.unescape_stream], "replay_sub": "sys",
             "rule": "catalogue of 13 function shapes (sync with early return / ? / panic / generic with lifetime / &mut self method; "
                     "async fn with in_span and with enter_on_poll; hand-written Box::pin forms with and without leading statements; "
